@@ -1086,6 +1086,10 @@ class Exec:
         st.heap.update({k: v2 for k, v2 in s.heap.items() if k not in st.heap})
         for f in s.pc[len(st.pc):]:
             st.pc.append(f)
+        # ... and memoised ghost definitions (prefix-sum functions, selections), whose defining facts were just kept
+        for gk, gv in s.ghost.items():
+            if gk == "sums" or gk.startswith(("psumdef:", "sum:")):
+                st.ghost[gk] = gv
         return v
 
     def spec_formula(self, text, env, st, old_st=None):
